@@ -11,7 +11,7 @@ CLAIMED = {
         "exploration",
         "exhaustive enumeration of (device specification, source-program variant, linearisation) combinations through the real hardware compilers, judged by an own layout matcher, range check and photon-statistics reference",
         "Generated X-series devices with 1, 2 (thorough 3) spatial modes x 3 parameter-range variants; sources = every combination of a squeezer variant per pair (none, S2(0), S2(1), S2(.5), twice, reversed, wrong pair) x interferometer variant (Interferometer(U) over a finite unitary family, explicit BS/MZ/R words, different / mixing / one-sided halves) x measurement variant (all, subset, split, gate after) x every order of the squeezer commands (3e4 cases quick), compiled with Xunitary and Xcov; the device's own template with in- and out-of-range values through Xstrict; device A -> device B on one compiler class. Either CircuitError/ValueError exactly where the reference deems the source inadmissible or out of range, or: wire-by-wire match with the parsed layout, every matched parameter inside the device range, same Gaussian state (Xunitary/Xstrict) / same photon statistics up to local phases (Xcov: vacuum probability, |B_ij|, all four-photon hafnian moduli).",
-        "blackbird parser trusted; Borealis/TDM device compilation not enumerated (loop-phase certificates), see DESIGN.",
+        "blackbird parser trusted. Borealis: 5 loop-phase certificates x 2-3 program sizes x 3 phase patterns x raw/full_compile-prepared arrays x compiler-/user-inserted offsets (120-360 cases): layout followed, offsets equal the certificate, arrays inside the modulator range, photon statistics of all measured pulses equal to the ideal experiment unless values were moved by exactly pi. TD2/TDM single-loop devices not enumerated.",
         "DESIGN.md section 4 (C12)",
     ),
     "C19": (
